@@ -527,7 +527,7 @@ func run(raw json.RawMessage) driver.Result {
 	PT := ptrify.Pointerify(T, reflect.New(T).Elem())
 	prefix := ""
 	if r.Chance(1, 2) {
-		prefix = coqfmt.Pick(r, []string{"APP", "MY_SVC", "x", "Dials9", "A"})
+		prefix = coqfmt.Pick(r, []string{"APP", "MY_SVC", "x", "Dials9", "A", "SVC_", "_", "a__"}) // also prefixes that end in the separator: PREFIX + "_" + NAME all the same
 	}
 	var leaves []leafInfo
 	walk(T, nil, 0, &leaves)
